@@ -16,7 +16,7 @@ RULE = ("programs: grammar-generated valid Python 3.12 modules (props/C43_gen.py
         "chained, annotated, augmented; import forms incl. conditional ones; with items incl. parenthesised; except / except* "
         "clauses; match patterns and subjects; f-string forms; global / nonlocal / del; walrus and star-expression positions; "
         "class headers; statement forms - candidates are over-generated, CPython's compile() keeps the valid ones; the argument-list "
-        "families complete, the others a fixed stride sample of 30 (thorough 60) per family; 100 snippets per module, a failing "
+        "families complete, the others a fixed stride sample of 15 (thorough 60) per family; 100 snippets per module, a failing "
         "module is split into chunks of 10 and then single snippets), fixed regression probes "
         "and one minimal witness per registered input family; each compiled as .py (mutants also as .pyx) by the compiler under "
         "test, the C checked by gcc -fsyntax-only; distinct by source hash; a failure outside the registered families is re-run in "
@@ -1548,7 +1548,7 @@ def shrink(ctx, src, ext, klass, rounds=8):
 # families of the systematic enumeration that are complete in the quick tier too (argument lists: the parser loop modelled in
 # M_CallArgs.v); every other family is stride-sampled in quick and complete in thorough
 ENUM_FULL_IN_QUICK = {"callargs", "callargs_comma", "callargs_for", "classargs", "decoargs", "callargs_ctx", "class_header"}
-ENUM_QUICK_CAP = 30
+ENUM_QUICK_CAP = 15
 ENUM_THOROUGH_CAP = 60
 ENUM_GROUP = 100
 ENUM_CHUNK = 10
@@ -1592,7 +1592,7 @@ def enum_programs(ctx):
         seen[k] = seen.get(k, 0) + 1
         if seen[k] <= per:
             kept.append((lab, fam, src))
-    cap = 16 if ctx.tier == "quick" else 600
+    cap = 8 if ctx.tier == "quick" else 600
     ctx.extra["grammar_enumeration"] = {"candidates": ncand, "rejected_by_cpython": nrej, "compiled_in_groups": sum(len(g[2]) for g in groups),
                                         "inputs_of_registered_families": len(singles), "of_these_compiled_alone": min(len(kept), cap), "modules": len(groups)}
     return groups, kept[:cap]
